@@ -24,6 +24,23 @@ def three_reps(c, e):
 LEAVES = [gen.L("a"), gen.L("b"), gen.L("c"), gen.C(0), gen.C(1)]
 
 
+WIDE_NAMES = ["x%d" % i for i in range(1, 13)]
+
+
+def sparse_wide(rng, nv, cnf=False):
+    """an asymmetric function of exactly nv declared inputs (x1..x<nv>): a sparse random DNF / CNF of 2-5 clauses,
+    padded with (v | !v) for the variables it does not use. Wide enough to cross machine-word boundaries of rows."""
+    vs = WIDE_NAMES[:nv]
+    clauses = []
+    for _ in range(rng.randint(2, 5)):
+        ls = rng.sample(vs, rng.randint(1, 4))
+        clauses.append([gen.L(x) if rng.random() < 0.6 else gen.Nn(gen.L(x)) for x in ls])
+    used = {l[1] if l[0] == "L" else l[1][1] for cl in clauses for l in cl}
+    pad = [gen.O([gen.L(x), gen.Nn(gen.L(x))]) for x in vs if x not in used]
+    e = gen.A([gen.O(cl) for cl in clauses]) if cnf else gen.O([gen.A(cl) for cl in clauses])
+    return gen.A([e] + pad) if pad else e
+
+
 def gen_C02(tier, rng):
     cases = []; dist = collections.Counter()
     universe = ["a", "b", "c", "z"]
@@ -61,8 +78,19 @@ def gen_C02(tier, rng):
         for _ in range(8):
             vals.append([(x, rng.random() < 0.5) for x in names + ["z"] if rng.random() < 0.7])
         add(e, vals, "random")
+    # wide functions (7-10 inputs): row-index arithmetic beyond one word of rows, many unassigned inputs at once
+    for nv in ([7, 8, 9, 10] if tier == "quick" else [7, 8, 9, 10, 11, 12]):
+        for rep in range(3 if tier == "quick" else 10):
+            e = sparse_wide(rng, nv, cnf=(rep % 2 == 1))
+            vs = WIDE_NAMES[:nv]
+            vals = [[(x, rng.random() < 0.5) for x in vs]]                                    # total
+            for _ in range(7):
+                pr = rng.choice([0.3, 0.6, 0.9])
+                vals.append([(x, rng.random() < 0.5) for x in vs + ["zz"] if rng.random() < pr])   # partial, foreign name
+            vals.append([])
+            add(e, vals, "wide%d" % nv)
     return {"cases": cases, "exhaustive": True, "dist": dict(dist),
-            "rule": "every expression tree with <= %d nodes over 3 names, constants and n-ary arities 0..3, in its expression, table and diagram form, under all 81 partial assignments of {a,b,c,z}, defaults 0/1 and checked mode; sampled larger trees and random trees up to 8 names; a case is non-trivial when some assignment leaves an input unassigned and assigns another; distinct = distinct trees" % full_upto}
+            "rule": "every expression tree with <= %d nodes over 3 names, constants and n-ary arities 0..3, in its expression, table and diagram form, under all 81 partial assignments of {a,b,c,z}, defaults 0/1 and checked mode; sampled larger trees and random trees up to 8 names; sparse asymmetric functions of 7-10 (12) inputs under total, partial and empty assignments; a case is non-trivial when some assignment leaves an input unassigned and assigns another; distinct = distinct trees" % full_upto}
 
 
 def gen_C05(tier, rng):
@@ -302,8 +330,21 @@ def gen_C04(tier, rng):
             c.q("equiv %d %d" % (x, y)); c.q("implied %d %d" % (x, y)); c.q("implied %d %d" % (y, x))
         dist["three_var"] += 1
         cases.append(c.done("%s:%s|%s" % ("".join(vs), tf, tg), True))
+    # wide pairs (7-9 inputs): equal functions in different shapes, a strengthening / weakening, different input sets
+    for nv in ([7, 8, 9] if tier == "quick" else [7, 8, 9, 10, 11]):
+        for rep in range(3 if tier == "quick" else 8):
+            f = sparse_wide(rng, nv); g0 = sparse_wide(rng, nv - 1, cnf=True)
+            variants = [("same", gen.Nn(gen.Nn(f))), ("stronger", gen.A([f, g0])), ("weaker", gen.O([f, g0])), ("other", g0)]
+            c = Case("c04_%d" % n); n += 1
+            rf = three_reps(c, f)
+            for nm, g in variants:
+                rg = three_reps(c, g)
+                for x, y in zip(rf, rg):
+                    c.q("equiv %d %d" % (x, y)); c.q("implied %d %d" % (x, y)); c.q("implied %d %d" % (y, x)); c.q("semeq %d %d" % (x, y))
+            dist["wide%d" % nv] += 1
+            cases.append(c.done("wide%d/%d" % (nv, rep), True))
     return {"cases": cases, "exhaustive": tier != "quick", "dist": dict(dist),
-            "rule": "ordered pairs of truth functions of <= 2 variables under every alignment in a 3-name universe (quick: every second pair plus all pairs with equal vectors), each operand also obtained through an identity history (restrict {}, & true, double negation, round trip through another representation, exists {foreign}); is_equivalent / is_implied_by / semantic_eq in three representations; sampled 3-variable pairs; the evidence counts equal / implied / neither outcomes; non-trivial = different input sets"}
+            "rule": "ordered pairs of truth functions of <= 2 variables under every alignment in a 3-name universe (quick: every second pair plus all pairs with equal vectors), each operand also obtained through an identity history (restrict {}, & true, double negation, round trip through another representation, exists {foreign}); is_equivalent / is_implied_by / semantic_eq in three representations; sampled 3-variable pairs; wide pairs of 7-9 (11) inputs (same / stronger / weaker / unrelated); the evidence counts equal / implied / neither outcomes; non-trivial = different input sets"}
 
 
 def diff_expand(ins, tv, union):
@@ -359,19 +400,32 @@ def gen_quant(prefix, ops, tier, rng):
                     k = c.r("%s %d %s" % (op, r, set_tokens(sorted(V)))); c.q("obs %d" % k)
         dist["random"] += 1
         cases.append(c.done(pe(e), True))
+    # wide functions (7-9 inputs): the restricted halves have 64 rows and more
+    for nv in ([7, 8, 9] if tier == "quick" else [7, 8, 9, 10, 11]):
+        for rep in range(2 if tier == "quick" else 6):
+            e = sparse_wide(rng, nv, cnf=(rep % 2 == 1))
+            c = Case("%s_w%d" % (prefix, n)); n += 1
+            regs = three_reps(c, e)
+            vs = WIDE_NAMES[:nv]
+            for V in ([vs[0]], [vs[-1]], [vs[nv // 2], "zz"], rng.sample(vs, 2), ["zz"], rng.sample(vs, 3)):
+                for op in ops:
+                    for r in regs[1:]:
+                        k = c.r("%s %d %s" % (op, r, set_tokens(sorted(V)))); c.q("obs %d" % k)
+            dist["wide%d" % nv] += 1
+            cases.append(c.done("wide%d/%d" % (nv, rep), True))
     return cases, dict(dist)
 
 
 def gen_C06(tier, rng):
     cases, dist = gen_quant("c06", ["exists", "forall"], tier, rng)
     return {"cases": cases, "exhaustive": True, "dist": dist,
-            "rule": "every truth function of <= 3 variables x every subset of the 4-name universe {a,b,c,z} (16 subsets: empty, foreign, several inputs) x {exists, forall} x three representations, full observation; every expression tree with <= 4 nodes over {a, b, constants} (sample of 5) incl. nested negations, quantified over {}, {a}, {b}, {a,b}, {a,z}; random 4-6 input functions with 1-3 quantified names; non-trivial = the set is empty or contains >= 2 inputs; distinct = (function, shape)"}
+            "rule": "every truth function of <= 3 variables x every subset of the 4-name universe {a,b,c,z} (16 subsets: empty, foreign, several inputs) x {exists, forall} x three representations, full observation; every expression tree with <= 4 nodes over {a, b, constants} (sample of 5) incl. nested negations, quantified over {}, {a}, {b}, {a,b}, {a,z}; random 4-6 input functions with 1-3 quantified names; sparse functions of 7-9 (11) inputs (first / last / middle / foreign / several variables); non-trivial = the set is empty or contains >= 2 inputs; distinct = (function, shape)"}
 
 
 def gen_C07(tier, rng):
     cases, dist = gen_quant("c07", ["deriv"], tier, rng)
     return {"cases": cases, "exhaustive": True, "dist": dist,
-            "rule": "every truth function of <= 3 variables x every subset of {a,b,c,z} x derivative x three representations, full observation; every small expression tree incl. nested negations; random 4-6 input functions; non-trivial = the set is empty or contains >= 2 inputs (the cases the suite does not have); distinct = (function, shape)"}
+            "rule": "every truth function of <= 3 variables x every subset of {a,b,c,z} x derivative x three representations, full observation; every small expression tree incl. nested negations; random 4-6 input functions; sparse functions of 7-9 (11) inputs; non-trivial = the set is empty or contains >= 2 inputs (the cases the suite does not have); distinct = (function, shape)"}
 
 
 # ------------------------------------------------------------------ C08
@@ -421,8 +475,28 @@ def gen_C08(tier, rng):
             k_ = c.r("subst %d %s" % (r, toks)); c.q("obs %d" % k_)
         dist["three_var_random"] += 1
         cases.append(c.done("%s/%s" % (tv, m), True))
+    # wide targets (7-8 inputs, result up to 10): 2-4 keys spread over the inputs, replacements over other inputs and
+    # over fresh variables shared between replacements (never over keys: that is the diagrams' documented refusal)
+    for nv in ([7, 8] if tier == "quick" else [7, 8, 9]):
+        for rep in range(3 if tier == "quick" else 10):
+            f = sparse_wide(rng, nv, cnf=(rep % 2 == 1))
+            vs = WIDE_NAMES[:nv]
+            keys = sorted(rng.sample(vs, rng.randint(2, 4)) + (["zz"] if rng.random() < 0.3 else []))
+            nonkeys = [x for x in vs if x not in keys]
+            c = Case("c08_%d" % n); n += 1
+            regs = three_reps(c, f)
+            gregs = []
+            for k in keys:
+                pool_ = rng.sample(["p", "q"], rng.randint(1, 2)) + rng.sample(nonkeys, min(len(nonkeys), rng.randint(0, 2)))
+                g = gen.rand_tree(rng, rng.randint(0, 2), pool_, max_arity=2, consts=(rng.random() < 0.2), empties=False)
+                gregs.append(three_reps(c, g))
+            for i, r in enumerate(regs):
+                toks = "%d%s" % (len(keys), "".join(" %s %d" % (hexname(k), gregs[j][i]) for j, k in enumerate(keys)))
+                k_ = c.r("subst %d %s" % (r, toks)); c.q("obs %d" % k_)
+            dist["wide%d" % nv] += 1
+            cases.append(c.done("wide%d/%d" % (nv, rep), True))
     return {"cases": cases, "exhaustive": tier != "quick", "dist": dict(dist),
-            "rule": "every truth function of <= 2 variables over {a,b} as f; maps with one key from {a, b, foreign z} and every replacement from a pool of 17 functions over subsets of {a,b,c} (literals, negated literals, constants, and/or/xor of two), and two-key maps (quick: 120 sampled, thorough: all); three representations; 3-variable f with random 1-3 key maps; non-trivial = a replacement mentions another key, or a key is foreign, or a fresh variable is introduced; the distribution counts these classes and the documented self-reference refusal"}
+            "rule": "every truth function of <= 2 variables over {a,b} as f; maps with one key from {a, b, foreign z} and every replacement from a pool of 17 functions over subsets of {a,b,c} (literals, negated literals, constants, and/or/xor of two), and two-key maps (quick: 120 sampled, thorough: all); three representations; 3-variable f with random 1-3 key maps; sparse 7-8 (9) input f with 2-4 keys and replacements over other inputs and shared fresh variables; non-trivial = a replacement mentions another key, or a key is foreign, or a fresh variable is introduced; the distribution counts these classes and the documented self-reference refusal"}
 
 
 # ------------------------------------------------------------------ C09 / C10
